@@ -50,9 +50,38 @@ def run(ctx):
                 q["stopval"] = -p["stopval"]
             pa.append(p)
             pb.append(q)
-        ba = runcheck.run_batch(ctx, bdir, A, pa, [], "max f")
-        bb = runcheck.run_batch(ctx, bdir, A, pb, [], "min -f")
+        ba = runcheck.run_batch(ctx, bdir, A, pa, [], "max f", blame_crash=False)
+        bb = runcheck.run_batch(ctx, bdir, A, pb, [], "min -f", blame_crash=False)
         runcheck.compare_pairs(ctx, [r for _, r, _ in ba], [r for _, r, _ in bb], relate, "pairs (max f | min -f)", {"cause": "max f differs from min -f"})
+        # preconditioned objective (nlopt_set_precond_max_objective): the wrapper must hand the algorithm the NEGATED preconditioner
+        # of f, i.e. the same thing as the preconditioner of -f.  (Preconditioners are not part of the Lean wrapper model: pair runs only.)
+        pc, pd = [], []
+        for k in range(200 if ctx.thorough else 40):
+            p = problems.gen_problem(rng, A, alg_name="NLOPT_LD_CCSAQ", allow_max=False, maxeval=rng.choice([10, 30, 60]),
+                                     box=rng.choice(["finite", "finite", "offset", "half_lo", "half_hi", "infinite", "tight", "opt_outside", "big"]))
+            p["obj"] = rng.choice([0, 1, 3])
+            p["max"] = 1
+            p["pre"] = 1
+            q = dict(p)
+            del q["max"]
+            q["negobj"] = 1
+            if "stopval" in p:
+                q["stopval"] = -p["stopval"]
+            pc.append(p)
+            pd.append(q)
+        bc = runcheck.run_batch(ctx, bdir, A, pc, [], "max f with preconditioner", replay=False, blame_crash=False)
+        bd = runcheck.run_batch(ctx, bdir, A, pd, [], "min -f with negated preconditioner", replay=False, blame_crash=False)
+
+        def relate_pre(a, b):
+            d = relate(a, b)
+            if d:
+                return d
+            pa_, pb_ = getattr(a, "precond", []), getattr(b, "precond", [])
+            if len(pa_) != len(pb_):
+                return "number of preconditioner calls differs: %d vs %d" % (len(pa_), len(pb_))
+            return None
+        runcheck.compare_pairs(ctx, [r for _, r, _ in bc], [r for _, r, _ in bd], relate_pre, "pairs with preconditioner (max f | min -f)", {"cause": "max f differs from min -f", "preconditioner": True})
+        ctx.cov["preconditioner_calls_seen"] = sum(len(getattr(r, "precond", [])) for _, r, _ in bc)
         ctx.sample({"spec_max": ba[0][1].spec, "spec_min": bb[0][1].spec})
     ctx.assumptions += ["the user's -f is computed by exact sign flips of value and gradient (IEEE negation is exact)"]
     return ctx.finish(level="proof", extra_cov={"rule": "a case = one run (each pair contributes two); distinct by spec"})
